@@ -48,6 +48,8 @@ type Profile struct {
 	// also appear as array items and definitions. No value oracle covers these;
 	// they serve the compile-level property only.
 	MixedBranches bool
+	// UntypedAdditional: additionalProperties true / {} next to declared properties.
+	UntypedAdditional bool
 
 	// Sat reports whether a numeric node admits some value; unsatisfiable draws
 	// are repaired (constraints dropped) unless KeepUnsat.
@@ -530,9 +532,13 @@ func (c *Ctx) Object(t *rapid.T, depth int) *model.Node {
 		}
 	}
 	if chance(t, p.PAdditional, "hasaddl") {
-		if rapid.IntRange(0, 4).Draw(t, "addlfalse") == 0 {
+		switch k := rapid.IntRange(0, 6).Draw(t, "addlfalse"); {
+		case k == 0:
 			n.Additional = &model.Additional{False: true}
-		} else {
+		case k <= 2 && p.UntypedAdditional:
+			// the everyday form: additionalProperties true / {}
+			n.Additional = &model.Additional{Schema: &model.Node{Kind: model.KAny, AnyAsTrue: rapid.Bool().Draw(t, "addltrue")}}
+		default:
 			n.Additional = &model.Additional{Schema: c.addlValue(t)}
 		}
 	}
